@@ -411,11 +411,28 @@ def r17_3(run):
         if items is None:
             continue
         T, F = ("V", 0), ("V", 1)
-        if len(items) == 2 and {key(i) for i in items} == {key(("tuple", (T, ("idx", F, (C(0),))))), key(("tuple", (T, ("idx", F, (C(1),)))))} \
-                and filt(it, "BranchComponent") and any(x[0] == "call" and x[1][0] == "attr" and x[1][2] == "from_to_node_cols"
-                                                        for x in walk(it)):
+        from ..arrnf import norm_cond as _nc
+
+        def filtered(clsname):
+            # the class filter: in the iterable (comprehension condition) or as the path condition of the update (if / continue)
+            if filt(it, clsname):
+                return True
+            for c_, p_ in c.cond:
+                c2, p2 = _nc(c_, p_)
+                if p2 and filt(c2, clsname):
+                    return True
+            return False
+
+        def ftn_component(x, k):
+            """x is component k of <class>.from_to_node_cols(): of the loop's second variable (whose iterable calls it), or of a call"""
+            if x == ("idx", F, (C(k),)) and any(y[0] == "call" and y[1][0] == "attr" and y[1][2] == "from_to_node_cols" for y in walk(it)):
+                return True
+            src = x[1] if x[0] == "proj" and x[2] == k else (x[1] if x[0] == "idx" and x[2] == (C(k),) else None)
+            return src is not None and src[0] == "call" and src[1][0] == "attr" and src[1][2] == "from_to_node_cols"
+        if len(items) == 2 and all(i[0] == "tuple" and len(i[1]) == 2 and i[1][0] == T for i in items) \
+                and {k for i in items for k in (0, 1) if ftn_component(i[1][1], k)} == {0, 1} and filtered("BranchComponent"):
             br_ok = True
-        if len(items) == 1 and key(items[0]) == key(("tuple", (T, C("junction")))) and filt(it, "NodeElementComponent"):
+        if len(items) == 1 and key(items[0]) == key(("tuple", (T, C("junction")))) and filtered("NodeElementComponent"):
             nd_ok = True
     run.ob("branch-columns-from-class", br_ok,
            "for every BranchComponent table both columns of the class's from_to_node_cols() are listed", w)
